@@ -97,9 +97,24 @@ def alignment_strings():
 
 def yml_for(strand, cigar):
     glen = spec_maps(cigar, 1 if strand == "+" else -1)[2]
-    return {"name": "G", "version": "1", "generated": "x", "pharmvar": None, "ensembl": None,
-            "reference": {"name": "NG_1", "seq": SEQ[:20] + "\n" + SEQ[20:], "mappings": {"hg19": ["1", START1, START1 + glen, strand, cigar]},
-                          "exons": [[5, 20]]}}
+    return {"name": "G", **_yml_rest(strand, cigar, glen)}
+
+
+PATCHED = (7, 31)  # 0-based RefSeq positions whose base in the raw database sequence is wrong and corrected by reference:patches
+
+
+def raw_seq():
+    raw = list(SEQ)
+    for p in PATCHED:
+        raw[p] = COMP[SEQ[p]]
+    return "".join(raw)
+
+
+def _yml_rest(strand, cigar, glen):
+    raw = raw_seq()
+    return {"version": "1", "generated": "x", "pharmvar": None, "ensembl": None,
+            "reference": {"name": "NG_1", "seq": raw[:20] + "\n" + raw[20:], "mappings": {"hg19": ["1", START1, START1 + glen, strand, cigar]},
+                          "patches": [[p + 1, SEQ[p]] for p in PATCHED], "exons": [[5, 20]]}}
 
 
 def fold_init_basic(repo, strand, cigar):
@@ -140,7 +155,7 @@ def r3(repo, res):
         c2r, r2c, glen = spec_maps(cigar, s)
         inv = all(me.ref_to_chr.get(me.chr_to_ref[c]) == c for c in me.chr_to_ref) and \
             all(me.chr_to_ref.get(me.ref_to_chr[r]) == r for r in me.ref_to_chr)
-        agree = me.chr_to_ref == c2r and me.ref_to_chr == r2c and me.strand == s
+        agree = me.chr_to_ref == c2r and me.ref_to_chr == r2c and me.strand == s and me.seq == SEQ  # SEQ = raw sequence with the patches applied
         n += 1
         res.ob("C08.R3", f, f, inv and agree,
                expected=f"strand {strand}, alignment '{cigar}': position maps mutually inverse and equal to the alignment string's reading",
